@@ -1,9 +1,11 @@
+import json
 import os
 import re
+import subprocess
 import time
 from concurrent.futures import ThreadPoolExecutor
 
-from vlib.core import ToolError, log, run_tlc
+from vlib.core import HARNESS, ToolError, log, run_tlc
 
 # The three grammar models are "theorem" models: Init enumerates a universe (values / texts), Next stutters, the
 # theorems are invariants.  TLC's -coverage instrumentation (which the generic `mc` step of vlib/core.py always
@@ -47,6 +49,43 @@ def grammar_models(check):
         log(f"[mc] {module} {cfg}: {res['states']} states, {res['distinct']} distinct ({dt:.0f}s)")
 
 
+def avro_blocks_replay(check):
+    """spec -> impl: TLC writes, for every value of five schemas and every blocking of arrays / maps the Avro specification
+    allows (one block, one block per item, negative counts with byte sizes, mixed), the body bytes and the value they denote
+    (Gen_AvroBlocks.tla, after checking Decode(body) = value in the specification itself); the driver frames each body as
+    a message and the real arrow-avro Decoder must return exactly that value (the writer only ever emits the first form)."""
+    cases = os.path.join(check.work, "avro_cases.ndjson")
+    t0 = time.time()
+    res = run_tlc("Gen_AvroBlocks", "Gen_AvroBlocks.cfg" if check.tier == "quick" else "Gen_AvroBlocks_thorough.cfg",
+                  os.path.join(check.work, "md_gen_avro"), workers=1, timeout=1800, env_extra={"OUT": cases}, java_opts="-Xss256m", xmx="4g")
+    if "Error:" in res["out"] or "Assumption" in res["out"] or not os.path.exists(cases):
+        log(res["out"][-3000:])
+        raise ToolError("TLC could not generate the Avro block cases (or the specification does not read its own blockings back)")
+    n = sum(1 for _ in open(cases))
+    r = subprocess.run([os.path.join(HARNESS, "target", "release", "c17"), "replay-avro", "--cases", cases],
+                       stdout=subprocess.PIPE, stderr=subprocess.STDOUT, text=True, timeout=1800)
+    if r.returncode != 0:
+        log(r.stdout[-3000:])
+        raise ToolError("c17 replay-avro failed")
+    mism = 0
+    for line in r.stdout.splitlines():
+        if line.startswith("MISMATCH "):
+            mism += 1
+            if mism <= 3:
+                check.violation("arrow-avro Decoder differs from AvroEncoding.tla on a TLC-generated blocking of an array / map",
+                                dict(kind="gen", module="Gen_AvroBlocks", case=json.loads(line[9:])))
+        m = re.match(r"REPLAYED (\d+)", line)
+        if m:
+            check.gen_cases += int(m.group(1))
+    check.mc_runs.append(dict(module="Gen_AvroBlocks", mode="generate", cases=n, wall_s=round(time.time() - t0, 1)))
+    with open(cases) as f:
+        lines = f.read().splitlines()
+    if lines:
+        check.samples.append(dict(kind="tlc_generated_case", module="Gen_AvroBlocks", case=json.loads(lines[len(lines) // 2])))
+    log(f"[gen] Gen_AvroBlocks: {n} (schema, value, blocking) cases with their bytes replayed into the arrow-avro Decoder, "
+        f"{mism} mismatches ({time.time() - t0:.0f}s)")
+
+
 PLAN = dict(
     id="C17",
     level="model_checking",
@@ -54,7 +93,7 @@ PLAN = dict(
     drive=[dict(bin="c17", args=["run"], timeout=3000)],
     tv=[dict(glob="text-*.ndjson", module="Trace_TextFormats", cfg="Trace_TextFormats.cfg",
              corrupt=["cells", "utf8", "rows_out", "outcome", "msgs", "text"], timeout=3000)],
-    extra_steps=[grammar_models],
+    extra_steps=[avro_blocks_replay, grammar_models],
     level_text="The three formats are specified as TLA+ operators on character / byte sequences, written from the standards and independent of "
                "the implementation: CsvGrammar.tla (RFC 4180 field / record splitting with the arrow-csv Format options - delimiter, quote, "
                "escape, terminator, CR / LF / CRLF, quoted line breaks, doubled quotes - and the writer's quoting rule), JsonGrammar.tla (an "
